@@ -221,6 +221,15 @@ let () =
           else if has "p1" "D1" && not (has "p1" "S1") then "fail:concurrent-deleted-before-stored"
           else "ok" in
         Mlutil.print_model want verdict
+    | [_; k; _; rounds] when kind = "sdeliver" ->
+        (* one Deliver whose k recipients map to ONE mailbox: each recipient is a delivery of its own
+           (StoreSpec: k adds to the mailbox = k messages, k handles; stored_once: one stored event per
+           message, carrying its id; deleted_once: one deleted event per removed message) *)
+        let n = int_of_string k * int_of_string rounds in
+        let want = ["err=0"; "box=1"; Printf.sprintf "listed=%d" n; Printf.sprintf "ids=%d" n;
+                    Printf.sprintf "stored=%d" n; Printf.sprintf "sids=%d" n;
+                    Printf.sprintf "del=%d" n; Printf.sprintf "dids=%d" n] in
+        Mlutil.print_model want (if outs = want then "ok" else "fail:recipients-of-one-mailbox-not-one-message-one-stored-one-deleted-each")
     | [_; n; fail; rounds] when kind = "mdeliver" ->
         (* StoreManager.Deliver as coded: for each mailbox in order AddMessage, then the stored event;
            the first failing AddMessage ends the delivery. Oracle (stored_once / events_match_history):
